@@ -13,7 +13,7 @@ fn rt_single<C: Comments>(v: &VueJsxTransformVisitor<C>, ty: &TsType, expect: Op
     ok
 }
 fn kw(k: TsKeywordTypeKind) -> TsType { TsType::TsKeywordType(TsKeywordType { span: sp(1), kind: k }) }
-#[kani::proof] #[kani::unwind(8)] #[kani::stub(std::ptr::drop_in_place, no_drop)] #[kani::stub(core::ptr::drop_glue, no_glue)]
+#[kani::proof] #[kani::unwind(8)] #[kani::stub(std::ptr::drop_in_place, no_drop)] #[kani::stub(core::ptr::drop_glue, no_glue)] #[kani::stub(std::vec::Vec::extend_from_slice, extend_from_slice_model)]
 fn rt_keywords() {
     let v = visitor(any_options());
     use TsKeywordTypeKind::*;
@@ -29,7 +29,7 @@ fn rt_keywords() {
     std::mem::forget(v);
 }
 fn lit_ty(l: TsLit) -> TsType { TsType::TsLitType(TsLitType { span: sp(1), lit: l }) }
-#[kani::proof] #[kani::unwind(8)] #[kani::stub(std::ptr::drop_in_place, no_drop)] #[kani::stub(core::ptr::drop_glue, no_glue)]
+#[kani::proof] #[kani::unwind(8)] #[kani::stub(std::ptr::drop_in_place, no_drop)] #[kani::stub(core::ptr::drop_glue, no_glue)] #[kani::stub(std::vec::Vec::extend_from_slice, extend_from_slice_model)]
 fn rt_literals() {
     let v = visitor(any_options());
     assert!(rt_single(&v, &lit_ty(TsLit::Str(Str { span: sp(1), value: Atom::from("a"), raw: None })), Some("String")), "C17: string literal type -> String");
@@ -38,7 +38,7 @@ fn rt_literals() {
     assert!(rt_single(&v, &lit_ty(TsLit::Number(Number { span: sp(1), value: 1.0, raw: None })), Some("Number")), "C17: number literal type -> Number");
     std::mem::forget(v);
 }
-#[kani::proof] #[kani::unwind(8)] #[kani::stub(std::ptr::drop_in_place, no_drop)] #[kani::stub(core::ptr::drop_glue, no_glue)]
+#[kani::proof] #[kani::unwind(8)] #[kani::stub(std::ptr::drop_in_place, no_drop)] #[kani::stub(core::ptr::drop_glue, no_glue)] #[kani::stub(std::vec::Vec::extend_from_slice, extend_from_slice_model)]
 fn rt_bigint_literal() {
     let v = visitor(any_options());
     assert!(rt_single(&v, &lit_ty(TsLit::BigInt(BigInt { span: sp(1), value: Box::new(BigIntValue(1)), raw: None })), Some("BigInt")), "C17: bigint literal type -> BigInt");
@@ -58,10 +58,10 @@ fn rt_builtin<const K: u8>() {
     assert!(rt_single(&v, &tref(name, Vec::new()), Some(expect)), "C17: built-in classes map to themselves, string utilities to String, parameter utilities to Array, object utilities to Object");
     std::mem::forget(v);
 }
-macro_rules! rb_h { ($($n:ident: $a:expr;)*) => { $(#[kani::proof] #[kani::unwind(8)] #[kani::stub(std::ptr::drop_in_place, no_drop)] #[kani::stub(core::ptr::drop_glue, no_glue)] fn $n() { rt_builtin::<$a>() })* } }
+macro_rules! rb_h { ($($n:ident: $a:expr;)*) => { $(#[kani::proof] #[kani::unwind(8)] #[kani::stub(std::ptr::drop_in_place, no_drop)] #[kani::stub(core::ptr::drop_glue, no_glue)] #[kani::stub(std::vec::Vec::extend_from_slice, extend_from_slice_model)] fn $n() { rt_builtin::<$a>() })* } }
 rb_h! { rtb_date: 0; rtb_map: 1; rtb_set: 2; rtb_promise: 3; rtb_regexp: 4; rtb_error: 5; rtb_array: 6; rtb_function: 7; rtb_weakmap: 8; rtb_weakset: 9; rtb_object: 10;
         rtb_uppercase: 11; rtb_lowercase: 12; rtb_capitalize: 13; rtb_uncapitalize: 14; rtb_parameters: 15; rtb_ctor_parameters: 16; rtb_record: 17; rtb_partial: 18; rtb_readonly: 19; }
-#[kani::proof] #[kani::unwind(8)] #[kani::stub(std::ptr::drop_in_place, no_drop)] #[kani::stub(core::ptr::drop_glue, no_glue)]
+#[kani::proof] #[kani::unwind(8)] #[kani::stub(std::ptr::drop_in_place, no_drop)] #[kani::stub(core::ptr::drop_glue, no_glue)] #[kani::stub(std::vec::Vec::extend_from_slice, extend_from_slice_model)]
 fn rt_structural() {
     let v = visitor(any_options());
     use TsKeywordTypeKind::*;
@@ -89,7 +89,7 @@ fn setup_with_props_type(members: Vec<TsTypeElement>) -> ExprOrSpread {
 fn prop_sig(name: &str, ty: TsType, optional: bool) -> TsTypeElement {
     TsTypeElement::TsPropertySignature(TsPropertySignature { span: sp(1), readonly: false, key: Box::new(Expr::Ident(ident(name, SyntaxContext::empty()))), computed: false, optional, type_ann: Some(Box::new(TsTypeAnn { span: sp(1), type_ann: Box::new(ty) })) })
 }
-#[kani::proof] #[kani::unwind(8)] #[kani::stub(std::ptr::drop_in_place, no_drop)] #[kani::stub(core::ptr::drop_glue, no_glue)] #[kani::stub(alloc::fmt::format, fmt_marker)]
+#[kani::proof] #[kani::unwind(8)] #[kani::stub(std::ptr::drop_in_place, no_drop)] #[kani::stub(core::ptr::drop_glue, no_glue)] #[kani::stub(std::vec::Vec::extend_from_slice, extend_from_slice_model)] #[kani::stub(alloc::fmt::format, fmt_marker)]
 fn props_type_emission_nullable_union() {
     use TsKeywordTypeKind::*;
     let mut v = visitor(any_options());
@@ -108,7 +108,7 @@ fn props_type_emission_nullable_union() {
     assert!(ok, "C17: `string | null` emits type [String, null] (the null value stays in a multi-type list) and required: true");
     std::mem::forget(r); std::mem::forget(setup); std::mem::forget(v);
 }
-#[kani::proof] #[kani::unwind(8)] #[kani::stub(std::ptr::drop_in_place, no_drop)] #[kani::stub(core::ptr::drop_glue, no_glue)]
+#[kani::proof] #[kani::unwind(8)] #[kani::stub(std::ptr::drop_in_place, no_drop)] #[kani::stub(core::ptr::drop_glue, no_glue)] #[kani::stub(std::vec::Vec::extend_from_slice, extend_from_slice_model)]
 fn rt_indexed_access() {
     use TsKeywordTypeKind::*;
     let v = visitor(any_options());
